@@ -814,3 +814,14 @@ fn iter_state(
 //     no_match(&mut rx, "abcg");
 //     assert!(rx.has_error());
 // }
+
+// Verification hook (feature `llg_verif`): the append-only state table as interned contents.
+#[cfg(feature = "llg_verif")]
+impl RegexVec {
+    /// content (vector of (lexeme, derivative) pairs) of every state id allocated so far
+    pub fn verif_state_table(&self) -> Vec<Vec<u32>> {
+        (0..self.state_descs.len())
+            .map(|i| self.rx_sets.get(i as u32).to_vec())
+            .collect()
+    }
+}
